@@ -538,6 +538,66 @@ func propC09(r *Run, w *World) {
 		// the selected record: φ over Paths[pathIndex] / a later non-PARENT/UNKNOWN element
 		okSel := pathVal != nil && strings.Contains(Term(pathVal), "p0.Paths[")
 		r.Check(okSel, "selected record comes from event.Paths", fn.Pos(), "", "the record the summary is read from is not an element of event.Paths")
+		// every value the selection can take is a record of the event (never nil or a fresh
+		// map: the fall-back to the hinted record must survive), and a record that replaces
+		// the hinted one is known not to be a PARENT/UNKNOWN entry
+		if okSel {
+			seenPhi := map[*ssa.Phi]bool{}
+			var leaves func(v ssa.Value, via *ssa.BasicBlock)
+			nLeaf, nHint := 0, 0
+			leaves = func(v ssa.Value, via *ssa.BasicBlock) {
+				if ph, isPhi := v.(*ssa.Phi); isPhi {
+					if seenPhi[ph] {
+						return
+					}
+					seenPhi[ph] = true
+					for i, e := range ph.Edges {
+						leaves(e, ph.Block().Preds[i])
+					}
+					return
+				}
+				nLeaf++
+				t := Term(v)
+				if !strings.HasPrefix(t, "p0.Paths[") {
+					r.Fail("selected record "+t, fn.Pos(), "the selected PATH record can be "+t+", which is not a record of the event: the file summary is then empty although the event has PATH records")
+					return
+				}
+				// the hinted record needs no test; a replacement does
+				guarded := false
+				if via != nil {
+					np, nu := false, false
+					ls := GuardLits(via)
+					if ifi, isIf := via.Instrs[len(via.Instrs)-1].(*ssa.If); isIf && len(via.Succs) == 2 && via.Succs[0] != via.Succs[1] {
+						// the edge's own condition
+						for si, sb := range via.Succs {
+							for _, in := range sb.Instrs {
+								if ph, isPhi := in.(*ssa.Phi); isPhi && seenPhi[ph] {
+									ls = append(ls, Lit(ifi.Cond, si == 0))
+									ls = append(ls, expandBoolPhi(ifi.Cond, si == 0)...)
+								}
+							}
+						}
+					}
+					for _, l := range ls {
+						if strings.HasSuffix(l, "[\"nametype\"] != \"PARENT\"") {
+							np = true
+						}
+						if strings.HasSuffix(l, "[\"nametype\"] != \"UNKNOWN\"") {
+							nu = true
+						}
+					}
+					guarded = np && nu
+				}
+				if guarded {
+					r.OK("selected record "+t+" (replacement, not PARENT/UNKNOWN)", fn.Pos(), "")
+				} else {
+					nHint++
+					r.OK("selected record "+t+" (hinted)", fn.Pos(), "")
+				}
+			}
+			leaves(pathVal, nil)
+			r.Check(nLeaf >= 2 && nHint == 1, "selection shape", fn.Pos(), "", fmt.Sprintf("the selected PATH record has %d possible sources of which %d are taken without the nametype test; want the hinted record plus tested replacements", nLeaf, nHint))
+		}
 		// mode
 		undo := autoAlias(fn)
 		okMode := false
